@@ -735,3 +735,15 @@ M('ds-reflector-storage-column', 'C13', 'pointer-kernel-contracts',
   [(D, 'Scalar* u = &m_ref_u.coeffRef(0, ind);', 'Scalar* u = &m_ref_u.coeffRef(1, ind);')], 'u[2] is the first entry of the next column')
 M('ds-chase-window-one-row-low', 'C13', 'pointer-kernel-contracts',
   [(D, 'compute_reflector(&m_mat_H.coeffRef(il + i, il + i - 1), il + i);', 'compute_reflector(&m_mat_H.coeffRef(il + i + 1, il + i - 1), il + i);')], '3-row window may end at row iu + 1')
+M('schur-householder-left-reads-fourth-row', 'C13', 'pointer-kernel-contracts',
+  [(S_, 'const Scalar tvx = tau * (x[0] + v1 * x[1] + v2 * x[2]);', 'const Scalar tvx = tau * (x[0] + v1 * x[1] + v2 * x[3]);')])
+M('schur-householder-left-one-column-too-many', 'C13', 'pointer-kernel-contracts',
+  [(S_, 'for (; x < x_end; x += stride)', 'for (; x <= x_end; x += stride)')])
+M('schur-householder-right-column-pointer', 'C13', 'pointer-kernel-contracts',
+  [(S_, '''        Scalar* x0 = x;
+        Scalar* x1 = x + stride;
+        Scalar* x2 = x1 + stride;
+        for (Index i = 0; i < nrow; i++)''', '''        Scalar* x0 = x;
+        Scalar* x1 = x + stride;
+        Scalar* x2 = x1 + stride + stride;
+        for (Index i = 0; i < nrow; i++)''')], 'fourth column of a three-column window')
